@@ -79,6 +79,7 @@ pub fn spec_json(s: &CaseSpec) -> Json {
         .set("peer", Json::s(&format!("{:?}", s.peer)))
         .set("rules", Json::Arr(s.rules.iter().map(|r| Json::s(&format!("{:?}", r))).collect()))
         .set("write_budget", match s.write_budget { Some(b) => Json::i(b as i64), None => Json::Null })
+        .set("pre_existing_target_len", Json::i(s.pre_existing as i64))
 }
 
 pub struct Violation {
